@@ -20,6 +20,7 @@ pub fn one(data: &[u8], profile: FuzzProfile, prop: &str) {
     let def = defs.iter().find(|d| d.id == prop).expect("property exists");
     let case = (def.adjust)(decode(data, profile));
     let v = (def.check)(&case);
+    stats(&case, v.nontrivial, v.skipped.is_some());
     if let Some(f) = v.fail {
         if known::is_open(prop, &f.sig) {
             return;
@@ -37,4 +38,38 @@ pub fn one(data: &[u8], profile: FuzzProfile, prop: &str) {
         println!("VIOLATION property={prop} replay={path}");
         std::process::abort();
     }
+}
+
+static STATS: std::sync::Mutex<(u64, u64, u64, Vec<String>)> = std::sync::Mutex::new((0, 0, 0, Vec::new()));
+
+/// campaign counters, flushed to $VERIF_FUZZ_STATS every 500 executions (the fuzzer process ends without notice)
+fn stats(case: &crate::case::Case, nontrivial: bool, skipped: bool) {
+    let Ok(path) = std::env::var("VERIF_FUZZ_STATS") else { return };
+    let mut s = STATS.lock().unwrap_or_else(|e| e.into_inner());
+    s.0 += 1;
+    if nontrivial {
+        s.1 += 1;
+        if s.3.len() < 3 {
+            s.3.push(case.to_json());
+        }
+    }
+    if skipped {
+        s.2 += 1;
+    }
+    if s.0 % 500 == 0 || s.0 == 1 {
+        let body = serde_json::json!({"executions": s.0, "nontrivial": s.1, "skipped": s.2, "samples": s.3});
+        let _ = std::fs::write(&path, body.to_string());
+    }
+}
+
+/// fuzz profile used for a property's target
+pub fn profile_of(prop: &str) -> Option<FuzzProfile> {
+    Some(match prop {
+        "C01" => FuzzProfile::Collect,
+        "C06" => FuzzProfile::CollectInto,
+        "C07" => FuzzProfile::CollectX,
+        "C13" => FuzzProfile::Drops,
+        "C14" => FuzzProfile::Panics,
+        _ => return None,
+    })
 }
